@@ -4,6 +4,7 @@ CONSTANTS
   Bodies <- BodiesT
   Modes <- AllModes
   ValueChoices <- TwoValueLists
+  Ends <- TwoEnds
   Seconds <- SecondsQ
   TickMs <- Ticks2
   MaxTicks = 8
